@@ -236,6 +236,13 @@ class LLHRatioZeroNsTaylorWilksTestStatistic(
                 src_params_recarray=src_params_recarray,
                 tl=tl)
 
+            if nsgrad == 0 and nsgrad2 == 0:
+                # The log-likelihood ratio function is flat up to second
+                # order, e.g. if all selected events have a PDF ratio of one
+                # and there are no pure background events. The apex of the
+                # Taylor function is zero, not 0/0.
+                return 0.
+
             TS = -2 * nsgrad**2 / (4*nsgrad2)
 
             return TS
